@@ -243,7 +243,7 @@ type HandlerScript struct {
 	WithDeadline bool
 	// DeadlineIn > 0 runs the attempt under a context whose deadline is that near
 	DeadlineIn time.Duration
-	OnCall       func(n int, tx *gobinlog.Transaction, d *Delivered) // extra monitor (C08)
+	OnCall     func(n int, tx *gobinlog.Transaction, d *Delivered) // extra monitor (C08)
 }
 
 // NoFaults is a handler that accepts everything.
@@ -374,10 +374,11 @@ type AttemptResult struct {
 	Verdict       Verdict // Returned / Stuck / Undecided
 	StuckDump     []G
 	Delivered     []*Delivered
-	Conn          *sim.ConnLog // master-side log of the connection of this attempt (nil if none was accepted)
-	XConn         *xport.Conn  // client-side transport (nil if not wrapped / not dialled)
-	Dump          *sim.DumpReq // the dump request of this attempt (nil if none arrived)
-	ConnsMade     int          // connections the master accepted during this attempt
+	Conn          *sim.ConnLog  // master-side log of the connection of this attempt (nil if none was accepted)
+	XConn         *xport.Conn   // client-side transport (nil if not wrapped / not dialled)
+	XConns        []*xport.Conn // every client-side transport the attempt dialled
+	Dump          *sim.DumpReq  // the dump request of this attempt (nil if none arrived)
+	ConnsMade     int           // connections the master accepted during this attempt
 	DumpsMade     int
 	DumpConn      *sim.ConnLog // the connection that carried the first dump request (nil if none)
 	InlineErrDone bool         // Error() was called inline right after Stream returned
@@ -535,6 +536,7 @@ func (r *Running) Wait(maxWait time.Duration) *AttemptResult {
 	xs := xport.Conns(s.Addr)
 	if r.xAt < len(xs) {
 		r.res.XConn = xs[r.xAt]
+		r.res.XConns = append([]*xport.Conn(nil), xs[r.xAt:]...)
 	}
 	return r.res
 }
